@@ -490,10 +490,12 @@ Proof.
   destruct l; simpl in *; auto. rewrite H1. simpl. apply IH. exact H2.
 Qed.
 
-Lemma export_dir_step_frame : forall f j dst g e,
-  export_dir_step f (j, dst) = ROk (g, e) -> dst_safe dst = true -> export_frame f g.
+Lemma export_dir_step_frame : forall rel f j dst g e,
+  export_dir_step rel f (j, dst) = ROk (g, e) -> dst_safe dst = true -> export_frame f g.
 Proof.
-  intros f j dst g e H Hs. unfold export_dir_step in H. unfold dst_safe in Hs.
+  intros rel f j dst g e H Hs. unfold export_dir_step in H. unfold dst_safe in Hs.
+  destruct (rel && is_empty (dirname (normpath (pjoin2 REL_TARGET dst)))).
+  { inversion H; subst. apply export_frame_refl. }
   set (full := pjoin2 TARGET_STR dst) in *.
   repeat (apply andb_true_iff in Hs; destruct Hs as [Hs ?]).
   rename H0 into Hp, H1 into Hlex, H2 into Hpar. apply negb_true_iff in Hs.
@@ -523,21 +525,21 @@ Qed.
 (* export_to_directory on an arbitrary initial file system [f] (which may contain the source project):
    if every destination is safe, nothing outside the target changes - the target's missing parent
    directories are created, that is all.  This gives export_contained and export_src_unchanged. *)
-Theorem export_dir_contained : forall jds f,
+Theorem export_dir_contained : forall rel jds f,
   forallb (fun jd => dst_safe (snd jd)) jds = true ->
-  export_frame f (p_val (fold_partial2 export_dir_step jds f)).
+  export_frame f (p_val (fold_partial2 (export_dir_step rel) jds f)).
 Proof.
-  intros jds f Hs.
+  intros rel jds f Hs.
   apply (fold_partial2_inv _ _ (fun g => export_frame f g)).
   - apply export_frame_refl.
   - intros a [j dst] a' e Hin Ha Hstep. eapply export_frame_trans; [exact Ha|].
     eapply export_dir_step_frame; eauto. rewrite forallb_forall in Hs. apply (Hs (j, dst) Hin).
 Qed.
 
-Corollary export_src_unchanged : forall jds f q n,
+Corollary export_src_unchanged : forall rel jds f q n,
   forallb (fun jd => dst_safe (snd jd)) jds = true ->
   is_prefix TARGET q = false -> fs_get q f = Some n ->
-  fs_get q (p_val (fold_partial2 export_dir_step jds f)) = Some n.
+  fs_get q (p_val (fold_partial2 (export_dir_step rel) jds f)) = Some n.
 Proof.
-  intros jds f q n Hs Hq Hn. destruct (export_dir_contained jds f Hs q Hq) as [E|[_ E]]; congruence.
+  intros rel jds f q n Hs Hq Hn. destruct (export_dir_contained rel jds f Hs q Hq) as [E|[_ E]]; congruence.
 Qed.
